@@ -3,8 +3,8 @@
    vs ranges over ALL lists of violations (any rule ids, byte strings as paths and messages, any integers);
    q over all quirk vectors; the renderers are the interpretation of the dict literals / f-strings that the
    translator found in src/core/cli_utils.py and src/formatters/sarif.py (Gen/OutputGen.v). *)
-From TL Require Import Lib.Base Model.OutputTypes Gen.OutputGen Model.Output Actual.OutputActual
-     Proofs.OutputStr Proofs.OutputJson Proofs.OutputText Proofs.OutputSan Proofs.OutputMain.
+From TL Require Import Lib.Base Model.OutputTypes Gen.OutputGen Model.Output Model.OutputBytes Actual.OutputActual
+     Proofs.OutputStr Proofs.OutputJson Proofs.OutputText Proofs.OutputSan Proofs.OutputMain Proofs.OutputBytes.
 From Coq Require Import ZArith.
 Local Open Scope Z_scope.
 Local Open Scope string_scope.
@@ -177,6 +177,49 @@ Theorem C06_run_performed_partial : forall q files, existsb storage_raises files
 Proof. exact run_performed_partial. Qed.
 Print Assumptions C06_run_performed_partial.
 
+(* 12. Byte level.  stdout_of doc = what click.echo(json.dumps(doc, indent=K)) writes (json.dumps arguments read from the source, the
+       ensure_ascii escaper working on the bytes of a str under surrogateescape; compared with the real stdout byte for byte on every
+       document of every run); loads = the specification's reader of the JSON grammar (compared with Python's json.loads every run).
+       For EVERY JSON value - every byte string as a str (lone surrogates included), every integer, any nesting: stdout is pure ASCII,
+       hence well-formed UTF-8 whatever encoding stdout has; it is a JSON text and denotes the document; so the violations are
+       recovered from the BYTES of the JSON and of the SARIF rendering, for every list of violations and every quirk vector. *)
+Theorem C06_stdout_ascii_utf8 : forall j, ascii_bytes (stdout_of j) = true /\ utf8_valid (stdout_of j) = true.
+Proof. intros j. split; [exact (stdout_ascii j)|exact (stdout_utf8 j)]. Qed.
+Print Assumptions C06_stdout_ascii_utf8.
+
+Theorem C06_stdout_is_json_of_document : forall j, loads (stdout_of j) = Some j.
+Proof. exact loads_stdout. Qed.
+Print Assumptions C06_stdout_is_json_of_document.
+
+Theorem C06_stdout_wellformed : forall j, wellformed_json_text (stdout_of j) = true.
+Proof. exact stdout_wellformed. Qed.
+Print Assumptions C06_stdout_wellformed.
+
+Theorem C06_stdout_injective : forall j1 j2, stdout_of j1 = stdout_of j2 -> j1 = j2.
+Proof. exact stdout_injective. Qed.
+Print Assumptions C06_stdout_injective.
+
+Theorem C06_json_string_roundtrip : forall s X,
+  exists r, (json_quote s ++ X)%string = String dq r /\ read_str (S (String.length r)) r = Some (s, X).
+Proof. exact json_quote_read. Qed.
+Print Assumptions C06_json_string_roundtrip.
+
+Theorem C06_json_bytes_roundtrip : forall vs,
+  bind (loads (stdout_of (render_json vs))) decode_json = Some (map san_core vs, Z.of_nat (List.length vs)).
+Proof. exact json_bytes_roundtrip. Qed.
+Print Assumptions C06_json_bytes_roundtrip.
+
+Theorem C06_sarif_bytes_roundtrip : forall q ver vs,
+  bind (loads (stdout_of (render_sarif q ver vs))) decode_sarif = Some (map san_core vs).
+Proof. exact sarif_bytes_roundtrip. Qed.
+Print Assumptions C06_sarif_bytes_roundtrip.
+
+Theorem C06_json_dumps_arguments :
+  json_dumps_ensure_ascii = true /\ json_dumps_sort_keys = false /\ json_dumps_item_sep = ","
+  /\ json_dumps_key_sep = ": " /\ (1 <= json_dumps_indent)%nat.
+Proof. exact json_ser_facts. Qed.
+Print Assumptions C06_json_dumps_arguments.
+
 (* non-vacuity: three violations (a repeated rule id, a non-ASCII path, quotes in a message) meet every domain
    hypothesis above under the claimed vector, and the decoded list is the expected one *)
 Definition ex_vs : list viol :=
@@ -210,3 +253,10 @@ Example C06_group_missing_config_fixed :
   usage_outcome output_actual "nesting" UGroupMissingConfig = spec_outcome UGroupMissingConfig
   /\ usage_outcome output_actual "dry" UGroupMissingConfig = spec_outcome UGroupMissingConfig.
 Proof. vm_compute. split; reflexivity. Qed.
+
+(* byte level, non-vacuity: the three violations above (a non-ASCII path, quotes in a message) as the bytes of the JSON rendering *)
+Example C06_bytes_nonvacuous :
+  option_map (fun p => List.length (fst p)) (bind (loads (stdout_of (render_json ex_vs))) decode_json) = Some 3%nat
+  /\ ascii_bytes (stdout_of (render_sarif output_actual "0" ex_vs)) = true
+  /\ json_quote (String (ascii_of_nat 195) (String (ascii_of_nat 169) (String (ascii_of_nat 233) "\"""))) = """\u00e9\udce9\\\""""".
+Proof. vm_compute. repeat split; reflexivity. Qed.
